@@ -2,6 +2,7 @@ import OrdModel.Proofs.IndexSchedSeq
 import OrdModel.Proofs.IndexSchedValid
 import OrdModel.Proofs.IndexSchedRender
 import OrdModel.Proofs.IndexLiftInsChain
+import OrdModel.Proofs.IndexLiftInsValid
 /-!
 # C12 — index content does not depend on how indexing was scheduled
 
@@ -224,6 +225,18 @@ theorem c12_dumps_equal_full (cfg : Cfg) (sched₁ sched₂ : List (List Block))
     OutRel (fun s₁ s₂ => ∀ name, renderSection cfg s₁.st name = renderSection cfg s₂.st name)
       (runBatches cfg sched₁ {}) (runBatches cfg sched₂ {}) :=
   c12_dumps_equal cfg sched₁ sched₂ hflat hc.cond (c12_seqConsistentRun_full cfg _ hc)
+
+/-- **C12 for every valid chain**: C16's chain-validity predicate implies all chain hypotheses, so
+for every consensus-valid chain any two commit schedules give the same outcome and, on success,
+the same committed content and the same canonical dump. -/
+theorem c12_valid_chain (cfg : Cfg) (sched₁ sched₂ : List (List Block))
+    (hflat : sched₁.flatten = sched₂.flatten) (hv : Valid.validChain sched₁.flatten = true) :
+    OutRel (fun s₁ s₂ => Equiv s₁.st s₂.st ∧ s₁.cache = [] ∧ s₂.cache = [])
+      (runBatches cfg sched₁ {}) (runBatches cfg sched₂ {}) ∧
+    OutRel (fun s₁ s₂ => ∀ name, renderSection cfg s₁.st name = renderSection cfg s₂.st name)
+      (runBatches cfg sched₁ {}) (runBatches cfg sched₂ {}) :=
+  let hc := (InsLift.insChain_of_validChain _ hv).1
+  ⟨c12_schedule_independent_full cfg sched₁ sched₂ hflat hc, c12_dumps_equal_full cfg sched₁ sched₂ hflat hc⟩
 
 /-! ## Duplicate txids: schedule independence fails
 
